@@ -213,6 +213,8 @@ def execute_plan(plan: dict, kdf_limit: int = 300, keep_events: bool = False) ->
             name = "unprotect"
         return ot, (lambda fl: (name, args, kw))
 
+    for e in plan.get("entropy_script", ()):
+        world.entropy.scripted[(e["source"], e["n"])].append(bytes.fromhex(e["hex"]))
     with world.installed(ctx_factory=ctx_factory, resolver=resolver):
         with common.KdfBudget(10**9) as kb:
             i = 0
